@@ -1,6 +1,7 @@
 import SamVerif.Props.C13
+import SamVerif.Props.C13b
 /-! Axiom audit of every C13 property theorem (parsed by vlib/common.py). -/
-open SamVerif.Scope SamVerif.Sig
+open SamVerif.Scope SamVerif.Sig SamVerif.Fmt
 #print axioms scope_alpha_events
 #print axioms scope_alpha_invariant
 #print axioms alpha_same_graph
@@ -10,3 +11,4 @@ open SamVerif.Scope SamVerif.Sig
 #print axioms signature_last_wins
 #print axioms signature_dup_order_counterexample
 #print axioms methods_perm_invariant
+#print axioms parens_insensitive
